@@ -184,7 +184,15 @@ impl Compactor {
             })
         }));
 
+        #[cfg(feature = "verif")]
+        crate::verif::gate("compactor.table.before_commit").await;
         self.storage.version.commit_changes(changes).await?;
+        #[cfg(feature = "verif")]
+        {
+            let from = selected_rowsets.iter().map(|x| x.rowset_id()).join(",");
+            crate::verif::event("compaction.commit", &format!("{}:{}->{:?}", table.table_id(), from, rowset_id));
+            crate::verif::gate("compactor.table.after_commit").await;
+        }
 
         match rowset_id {
             Some(rowset_id) => {
@@ -209,8 +217,15 @@ impl Compactor {
         loop {
             {
                 let tables = self.storage.tables.read().clone();
+                #[cfg(feature = "verif")]
+                crate::verif::gate("compactor.pass.start").await;
                 let pin_version = self.storage.version.pin();
+                #[cfg(feature = "verif")]
+                crate::verif::gate("compactor.after_pin").await;
                 for (_, table) in tables {
+                    #[cfg(feature = "verif")]
+                    crate::verif::gate("compactor.table.before_lock").await;
+
                     if let Some(_guard) = self
                         .storage
                         .txn_mgr
